@@ -66,6 +66,7 @@ type FuncC struct {
 	Callsites     []*CallsiteC
 	NoSwallow     bool
 	NoSwallowTags []string
+	Nullable      map[string]bool // pointer parameters that may be nil
 	Ghosts        []GhostDecl
 	Abstracts     []string
 	MayPanic      bool // explicit panic instructions allowed (documented API panics)
@@ -138,7 +139,7 @@ var specRe = regexp.MustCompile(`^spec\s+([A-Za-z_][A-Za-z0-9_]*)\s*\(([^)]*)\)\
 var lemmaRe = regexp.MustCompile(`^lemma(\[[A-Za-z0-9,]+\])?\s+([A-Za-z_][A-Za-z0-9_]*)\s*\(([^)]*)\)\s*(induct\s+([A-Za-z_][A-Za-z0-9_]*))?\s*$`)
 
 var topKeywords = []string{"typeinv ", "assume-typeinv ", "spec ", "axiom ", "lemma ", "lemma[", "func ", "extern ", "funcfield ", "functype ", "nopanic "}
-var subKeywords = []string{"requires", "ensures", "defines", "invariant", "decreases", "assert", "assume", "panics", "modifies", "pure", "loop ", "callsite ", "noswallow", "ghost ", "abstracts ", "maypanic", "before:", "after:", "uses ", "ignore ", "pattern ", "preserves "}
+var subKeywords = []string{"requires", "ensures", "defines", "invariant", "decreases", "assert", "assume", "panics", "modifies", "pure", "loop ", "callsite ", "noswallow", "ghost ", "abstracts ", "maypanic", "before:", "after:", "uses ", "ignore ", "pattern ", "preserves ", "nullable "}
 
 func startsWithAny(s string, ks []string) bool {
 	for _, k := range ks {
@@ -318,6 +319,16 @@ func ParseContractFile(path string) (*CFile, error) {
 				return nil, errf(l, "pure outside func")
 			}
 			curF.Pure = true
+		case strings.HasPrefix(t, "nullable "):
+			if curF == nil {
+				return nil, errf(l, "nullable outside func")
+			}
+			if curF.Nullable == nil {
+				curF.Nullable = map[string]bool{}
+			}
+			for _, n := range splitTop(strings.TrimPrefix(t, "nullable ")) {
+				curF.Nullable[n] = true
+			}
 		case t == "noswallow" || strings.HasPrefix(t, "noswallow["):
 			if curF == nil {
 				return nil, errf(l, "noswallow outside func")
